@@ -65,29 +65,30 @@ def _check_summary(comment, comp, i):
     if "[PFID2-Filter: " not in comment or not comment.endswith("]"):
         raise Violation("Component%d summary %r lacks the platform filter" % (i, comment))
     expr = comment.split("[PFID2-Filter: ", 1)[1][:-1]
-    try:
-        got = BM.parse_expr(expr)
-    except ValueError as e:
-        raise Violation("filter expression %r does not parse as a & (b | !c): %s" % (expr, e))
     want = BM.filter_cnf(flt)
-    # map tokens to ids by position (the name table is cosmetic); the STRUCTURE and negations must match, and equal ids must get equal tokens
-    if [len(g) for g in got] != [len(g) for g in want]:
-        raise Violation("filter %s rendered as %r: group structure differs" % (flt.hex(), expr))
-    tok = {}
-    for gg, gw in zip(got, want):
-        for (name, neg), (hid, wneg) in zip(gg, gw):
-            if neg != wneg:
-                raise Violation("filter %s rendered as %r: negation differs for id %04X" % (flt.hex(), expr, hid))
-            if tok.setdefault(hid, name) != name:
-                raise Violation("filter %s rendered as %r: one id rendered with two names" % (flt.hex(), expr))
-    if len(set(tok.values())) != len(tok):
-        raise Violation("filter %s rendered as %r: two ids share a name" % (flt.hex(), expr))
-    ids = sorted(tok)
+    ids = sorted({h for g in want for h, _ in g})
+    # the name table is cosmetic and taken from the library; what is judged is the BOOLEAN FUNCTION of the expression
+    # (usual precedence ! > & > |) against the CNF read off the filter bytes, over every assignment of the occurring ids
+    from bec2format.hwcids import REV_HWCID_MAP
+
+    name_of = {h: REV_HWCID_MAP.get(h, "0x{:04X}".format(h)) for h in ids}
+    if len(set(name_of.values())) != len(ids):
+        return
+    try:
+        names = BM.expr_names(expr)
+    except ValueError as e:
+        raise Violation("filter expression %r does not tokenise: %s" % (expr, e))
+    if set(names) != set(name_of.values()):
+        raise Violation("filter %s rendered as %r: names %r, expected exactly %r" % (flt.hex(), expr, sorted(set(names)), sorted(name_of.values())))
     for mask in range(1 << min(len(ids), 10)):
         present = {h for j, h in enumerate(ids) if mask >> j & 1}
-        pres_names = {tok[h] for h in present}
-        if BM.eval_cnf(want, present) != all(any((n in pres_names) != neg for n, neg in g) for g in got):
-            raise Violation("filter %s and expression %r differ for present ids %r" % (flt.hex(), expr, sorted(present)))
+        try:
+            got = BM.eval_expr(expr, {name_of[h] for h in present})
+        except ValueError as e:
+            raise Violation("filter expression %r is not a well-formed boolean expression: %s" % (expr, e))
+        if got != BM.eval_cnf(want, present):
+            raise Violation("filter %s means %s for present ids %r, but the rendered expression %r evaluates to %s" % (
+                flt.hex(), BM.eval_cnf(want, present), sorted(hex(h) for h in present), expr, got))
 
 
 def check_import(case, rec):
